@@ -52,7 +52,7 @@ def _focus_constraints(M, clause_name):
 
 def worker_audit(case, seed):
     t0 = time.time()
-    cfg = LM.default_cfg(**case)
+    cfg = LM.default_cfg(**{k: v for k, v in case.items() if k != "clauses"})
     M = LM.build(cfg)
     hyps = list(M.cons.values()) + M.bounds + M.sup
     if SP.degenerate(M):
@@ -65,7 +65,7 @@ def worker_audit(case, seed):
     errors = []
     sat0 = ent.satisfiable()
     canary_bad = 0 if sat0 == "sat" else 1          # the constraint system itself must be satisfiable (vacuity guard)
-    clauses = SP.audit(M)
+    clauses = [(n, f) for n, f in SP.audit(M) if not case.get("clauses") or n.startswith(case["clauses"])]
     obligations["every quantity has a lower bound of zero"] = dict(unsat=0, sat=0, unknown=0)
     if M.unbounded_below:
         obligations["every quantity has a lower bound of zero"]["sat"] += 1
@@ -91,9 +91,124 @@ def worker_audit(case, seed):
     return dict(stats=stats, obligations=obligations, cex=cex, errors=errors, n_errors=len(errors), canary_bad=canary_bad)
 
 
+# ------------------------------------------------------------------------------------------ real runs: the LPs a country run builds
+def _captured_models(case):
+    from lpsym import capture as CP
+    from harness.C02_optimum import _scenarios
+    sc = _scenarios()[case["scenario"]]
+    rounds, res = CP.capture_country(case["country"], sc, case["NM"])
+    return [(c, CP.model_from_capture(c)) for c in rounds]
+
+
+def worker_captured(case, seed):
+    """every optimisation round of a REAL country run: the first-stage LP exactly as the real code built it with real PuLP (LpProblem.to_dict -> exact rationals),
+    supplies concrete (the run's), LP variables symbolic: constraints |= audit for every allocation the constraints admit."""
+    obligations, cex, errors = {}, [], []
+    queries = unsat = sat = unknown = 0
+    solver_s = 0.0
+    canary_bad = 0
+    models = _captured_models(case)
+    for ri, (c, M) in enumerate(models):
+        if case.get("rounds") == "first" and ri > 0:
+            # the rounds that charge feed carry 17-digit float coefficients in every balance row: several seconds per query in exact arithmetic (thorough tier only)
+            continue
+        hyps = list(M.cons.values()) + M.bounds
+        ent = Q.Entail(hyps, seed=seed)
+        if ent.satisfiable() != "sat":
+            canary_bad += 1
+        size = sum(abs(x) for v in M.S_float.values() for x in (v if isinstance(v, list) else [v]))
+        Mt = z3.Sum(list(M.X.values())) + 1 + LM.q(size)
+        ob0 = obligations.setdefault("every quantity has a lower bound of zero", dict(unsat=0, sat=0, unknown=0))
+        ob0["unsat" if M.all_lower_bounded else "sat"] += 1
+        run = 0.0
+        ok_run = True
+        for m in range(M.cfg["N"]):
+            run += M.S_float["slaughter"][m]
+            ok_run = ok_run and abs(run - M.running_given[m]) <= 1e-9 * (1 + abs(run))
+        obr = obligations.setdefault("the running meat total handed to the optimiser is the cumulative slaughter", dict(unsat=0, sat=0, unknown=0))
+        obr["unsat" if ok_run else "sat"] += 1
+        for name, f in SP.audit(M):
+            k = _kind(name)
+            ob = obligations.setdefault(k, dict(unsat=0, sat=0, unknown=0))
+            r, mod = ent.check(Q.relax(f, Mt))
+            ob[r] += 1
+            if r == "sat" and not any(x["obligation"] == k and x["round"] == ri for x in cex):
+                alloc = {}
+                for n, x in M.X.items():
+                    v = mod.eval(x, model_completion=True)
+                    alloc[n] = float(v.numerator_as_long()) / float(v.denominator_as_long())
+                cex.append(dict(obligation=k, model={}, info="round %d (%s): %s" % (ri + 1, c.type, name), round=ri, clause=name, alloc=alloc))
+        queries += ent.queries
+        solver_s += ent.solver_s
+        unsat += ent.counts["unsat"]
+        sat += ent.counts["sat"]
+        unknown += ent.counts["unknown"]
+    done = len(models) if case.get("rounds") != "first" else min(1, len(models))
+    st = dict(paths=done, completed=done, pruned_by_code_assertions=0, pruned_other=0, queries=queries, solver_s=round(solver_s, 3), branches=0, unsat=unsat, sat=sat, unknown=unknown, forks=0)
+    return dict(stats=st, obligations=obligations, cex=cex, errors=errors, n_errors=0, canary_bad=canary_bad)
+
+
+def _audit_floats(M, alloc):
+    """which audit clauses does a concrete allocation (by real PuLP variable name) violate?  exact evaluation of the clause formulas"""
+    sub = [(x, LM.q(alloc.get(n) or 0.0)) for n, x in M.X.items()]
+    size = sum(abs(x) for v in M.S_float.values() for x in (v if isinstance(v, list) else [v])) + sum(abs(v or 0.0) for v in alloc.values())
+    tol = LM.q(1e-6 * (1 + size))
+    bad = []
+    for name, f in SP.audit(M):
+        g = z3.simplify(z3.substitute(Q.relax(f, tol * 10 ** 9), *sub))
+        if z3.is_false(g):
+            bad.append(name)
+    return bad
+
+
+def replay_captured(case, cx):
+    case = case if isinstance(case, dict) else json.loads(case)
+    models = _captured_models(case)
+    c, M = models[cx["round"]]
+    # (1) what the real run reported for this round
+    reported = {}
+    for v in c.first_stage["variables"]:
+        reported[v["name"]] = None
+    final = {}
+    for k, lst in c.values.items():
+        for m, val in enumerate(lst):
+            final[(k, m)] = val
+    by_name = {}
+    for n in M.X:
+        by_name[n] = None
+    # names -> values through the same prefix mapping model_from_capture uses
+    for key, terms in M.V.items():
+        if isinstance(terms, list):
+            for m, t in enumerate(terms):
+                if hasattr(t, "z") and z3.is_const(t.z) and str(t.z) in M.X and (key, m) in final:
+                    by_name[str(t.z)] = final[(key, m)]
+    bad = _audit_floats(M, by_name)
+    if bad:
+        return dict(reproduced=True, what="%s %s %d months, round %d: the allocation the real run reports violates: %s" % (case["country"], case["scenario"], case["NM"], cx["round"] + 1, "; ".join(bad[:3])),
+                    inputs=dict(case=case), key="captured/%s/reported allocation" % _kind(bad[0]))
+    # (2) the solver's allocation satisfies every constraint and bound of the LP the real code built (checked on the real to_dict coefficients in floats) and breaks the audit
+    d = c.first_stage
+    a = cx["alloc"]
+    worst = 0.0
+    for k in d["constraints"]:
+        e = sum(t["value"] * a.get(t["name"], 0.0) for t in k["coefficients"]) + k["constant"]
+        viol = abs(e) if k["sense"] == 0 else (max(0.0, e) if k["sense"] == -1 else max(0.0, -e))
+        worst = max(worst, viol)
+    for v in d["variables"]:
+        if v["lowBound"] is not None:
+            worst = max(worst, v["lowBound"] - a.get(v["name"], 0.0))
+    size = 1 + sum(abs(x) for x in a.values())
+    bad2 = _audit_floats(M, a)
+    if worst <= 1e-7 * size and bad2:
+        return dict(reproduced=True, what="%s %s %d months, round %d: the LP built by the real run admits an allocation that violates: %s (CBC's own optimum did not use it)" % (
+            case["country"], case["scenario"], case["NM"], cx["round"] + 1, "; ".join(bad2[:3])), inputs=dict(case=case, allocation={k: v for k, v in a.items() if v}),
+            key="captured/%s/admitted allocation" % _kind(bad2[0]))
+    return dict(reproduced=False, what="counterexample allocation does not check out in floats (worst constraint violation %g, audit clauses violated %s)" % (worst, bad2[:2]))
+
+
 def replay_audit(case, cx):
     case = case if isinstance(case, dict) else json.loads(case)
-    cfg = LM.default_cfg(**case)
+    cfg = LM.default_cfg(**{k: v for k, v in case.items() if k != "clauses"})
     if cx.get("vals") is None:
         return dict(reproduced=True, what=cx.get("info"), key="audit/unbounded variable")
     tried = []
@@ -143,13 +258,25 @@ def main(tier, seed, only=None):
             cases.append(dict(N=15, opt=opt, store=False, flags=core, retail=6.08, rotation=False))
             cases.append(dict(N=9, opt=opt, store=True, flags=full, retail=24.98, rotation=False))
     else:
-        for N in [3, 5, 9, 13, 14, 15, 16, 24]:
-            for fl in _flagsets("some" if N > 14 else "all"):
+        # sized for about an hour on 16 cores: every ADD_* combination at 3 and 5 months under three waste levels; six representative combinations at the horizons that
+        # exercise every month-index branch (9, 13, 14, 15, 16) with and without relocation; 24 months on two combinations
+        for N in [3, 5]:
+            for fl in _flagsets("all"):
+                for opt in ("to_humans", "to_animals"):
+                    for store in (True, False):
+                        for retail in (0.0, 6.08, 24.98):
+                            cases.append(dict(N=N, opt=opt, store=store, flags=fl, retail=retail, rotation=False))
+        for N in [9, 13, 14, 15, 16]:
+            for fl in _flagsets("some"):
                 for opt in ("to_humans", "to_animals"):
                     for store in (True, False):
                         for rot in (False, True):
-                            for retail in (0.0, 6.08, 24.98):
-                                cases.append(dict(N=N, opt=opt, store=store, flags=fl, retail=retail, rotation=rot))
+                            cases.append(dict(N=N, opt=opt, store=store, flags=fl, retail=6.08 if N != 13 else 24.98, rotation=rot))
+        core = dict(SEAWEED=False, OUTDOOR_GROWING=True, STORED_FOOD=True, MEAT=True, METHANE_SCP=False, CELLULOSIC_SUGAR=False)
+        for fl in (full, core):
+            for opt in ("to_humans", "to_animals"):
+                for store in (True, False):
+                    cases.append(dict(N=24, opt=opt, store=store, flags=fl, retail=6.08, rotation=False))
     # every food with its own retail waste rate: a constraint that grosses one food up with another food's rate is only visible when the rates differ
     for N in ([5] if not thorough else [5, 14]):
         for opt in ("to_humans", "to_animals"):
@@ -159,7 +286,6 @@ def main(tier, seed, only=None):
     cases += [dict(N=5, opt=o, store=s, flags=full, retail=6.08, pop=p) for o in ("to_humans", "to_animals") for s in (True, False) for p in (5e5, 9.9e6)]
     if thorough:
         cases += [dict(N=14, opt=o, store=s, flags=dict.fromkeys(FLAGS, True), pop=p, symbolic_area=a) for o in ("to_humans", "to_animals") for s in (True, False) for p in (5e6, 8e9) for a in (True, False)]
-        cases += [dict(N=n, opt=o, store=True, flags=dict.fromkeys(FLAGS, True)) for n in (36, 48) for o in ("to_humans", "to_animals")]
     groups = [dict(name="constraints_entail_physical_audit", fn="worker_audit", cases=cases, replay=replay_audit,
                    functions=["Optimizer.__init__", "load_variable_names_and_prefixes", "add_variables_and_constraints_to_model", "add_variable_from_prefixes", "create_lp_variables",
                               "add_resource_specific_conditions_to_model", "add_conditions_to_model", "add_seaweed_to_model", "add_outdoor_crops_to_model", "handle_first_month",
@@ -176,6 +302,27 @@ def main(tier, seed, only=None):
                                 "no feed/biofuel is charged when no human-edible food is modelled (run_scenario skips the feed rounds)", "fat/protein not required (the dispatcher exits otherwise)"],
                    stubs=["pulp.LpVariable / LpProblem / PULP_CBC_CMD replaced by the z3-backed stand-in lpsym/standin.py (validated against real PuLP in C02)"],
                    outside=["horizons beyond the enumerated ones (constraints are generated per month by the same code)", "the floating-point solution CBC reports is audited only in replays", "fat/protein-required models"])]
+    from harness.C02_optimum import _scenarios
+    sc = _scenarios()
+    names = sorted(sc)
+    inst = [dict(country="ARG", scenario=n, NM=48 if not thorough else 120) for n in names if n.startswith("argentina")] + [dict(country="USA", scenario=n, NM=48 if not thorough else 120) for n in names if n.startswith("baseline_USA")][:1]
+    inst += [dict(country=c, scenario=n, NM=72) for c, n in (("FRA", names[0]), ("NZL", names[-1]), ("IND", names[1 % len(names)]), ("JPN", names[2 % len(names)]), ("DJI", names[0]), ("GRC", names[-1]))]
+    if thorough:
+        import random
+        import pandas as pd
+        rng = random.Random(seed + 17)
+        codes = list(pd.read_csv(vlib.REPO + "/data/no_food_trade/computer_readable_combined.csv")["iso3"])
+        inst += [dict(country=c, scenario=names[rng.randrange(len(names))], NM=rng.choice([48, 84, 96, 120])) for c in rng.sample(codes, 16)]
+        inst = [dict(c, rounds="first") for c in inst] + [dict(country="USA", scenario=[n for n in names if n.startswith("baseline_USA")][0], NM=48), dict(country="ARG", scenario=names[2], NM=48)]
+    else:
+        # quick tier: runs without resilient foods (seconds per LP); the seaweed / industrial-food LPs of the resilient scenarios take > 10 min each in exact arithmetic
+        inst = [dict(c, rounds="first") for c in inst if "resilient" not in c["scenario"] and c["country"] not in ("FRA", "GRC", "JPN")]
+    groups.append(dict(name="real_runs_constraints_entail_physical_audit", fn="worker_captured", cases=inst, replay=replay_captured,
+                       functions=["ScenarioRunnerNoTrade.run_model_no_trade (whole pipeline, real PuLP + CBC)", "Optimizer.add_variables_and_constraints_to_model as called by the run (LpProblem.to_dict of every round)"],
+                       bounds="%d real country runs (shipped scenario files, horizons %s months): the first (no-feed) round of each; thorough: also every round of two 48-month runs" % (len(inst), sorted({c["NM"] for c in inst})),
+                       symbolic="every LP variable of the captured model (supplies, coefficients and horizon are the run's own, as exact rationals of the floats)",
+                       assumptions=["entailment in the epsilon-relaxed form, 1e-9 x (1 + sum of supplies and variables)"], stubs=["results directory redirected to a scratch directory"],
+                       outside=["runs other than the listed ones", "later stages of the multi-stage driver (C04)"]))
     vlib.run_groups(rep, MOD, groups, seed, only)
     return rep.finish()
 
